@@ -29,9 +29,13 @@ type c21Field struct {
 }
 
 type c21Event struct {
-	Enc    string     `json:"enc"`  // msgp-batch | json-batch | json-event | msgp-event
-	Peer   bool       `json:"peer"` // send to the peer listener
+	Enc    string     `json:"enc"`  // msgp-batch | json-batch | json-event | msgp-event | otlp-trace | otlp-log
+	Peer   bool       `json:"peer"` // send to the peer listener (not for OTLP)
 	Fields []c21Field `json:"fields"`
+	// OTLP only: the span's / log record's own identifiers (hex; "" = absent). husky turns them into
+	// trace.trace_id / trace.parent_id; Fields are the client's attributes.
+	TraceHex  string `json:"trace_hex,omitempty"`
+	ParentHex string `json:"parent_hex,omitempty"`
 }
 
 type c21Input struct {
@@ -134,6 +138,38 @@ func c21GenEvent(r *rand.Rand, in *c21Input) c21Event {
 	return ev
 }
 
+var c21Hex = []string{"a1b2c3d4e5f60718293a4b5c6d7e8f90", "0af7651916cd43dd8448eb211c80319c", "ff000000000000000000000000000001"}
+
+// an OTLP span or log record: attributes named like configured / unconfigured ID fields, plus its own IDs
+func c21GenOTLP(r *rand.Rand, in *c21Input) c21Event {
+	ev := c21Event{Enc: []string{"otlp-trace", "otlp-trace", "otlp-log"}[r.Intn(3)]}
+	if ev.Enc == "otlp-trace" || r.Intn(3) > 0 {
+		ev.TraceHex = c21Hex[r.Intn(len(c21Hex))]
+	}
+	if r.Intn(2) == 0 {
+		ev.ParentHex = "00f067aa0ba902b7"
+	}
+	val := func() c21Val {
+		switch x := r.Intn(10); {
+		case x < 6:
+			return c21Val{K: "str", S: c21IDs[r.Intn(len(c21IDs))]}
+		case x < 8:
+			return c21Val{K: "str", S: ""}
+		case x == 8:
+			return c21Val{K: "int"}
+		default:
+			return c21Val{K: "bool", B: true}
+		}
+	}
+	for _, n := range []string{"traceId", "tid", "trace_id", "parentId", "pid", "x", "meta.note"} {
+		if r.Intn(10) < 4 {
+			ev.Fields = append(ev.Fields, c21Field{Name: n, Val: val()})
+		}
+	}
+	r.Shuffle(len(ev.Fields), func(a, b int) { ev.Fields[a], ev.Fields[b] = ev.Fields[b], ev.Fields[a] })
+	return ev
+}
+
 func c21Gen(r *rand.Rand, tier string, i int) any {
 	in := c21Input{}
 	in.TraceNames = c21Pick(r, c21TracePool, []int{0, 1, 2, 2, 2, 3, 3, 4}[r.Intn(8)])
@@ -143,6 +179,10 @@ func c21Gen(r *rand.Rand, tier string, i int) any {
 		n = 4 + r.Intn(12)
 	}
 	for j := 0; j < n; j++ {
+		if r.Intn(5) == 0 {
+			in.Events = append(in.Events, c21GenOTLP(r, &in))
+			continue
+		}
 		ev := c21GenEvent(r, &in)
 		in.Events = append(in.Events, ev)
 		// often follow an event with the same fields in another order and encoding
@@ -280,7 +320,15 @@ func c21Run(raw json.RawMessage) (Case, error) {
 	msgpB := map[group][]MV{}
 	jsonB := map[group][]string{}
 	var statuses []string
+	otlpIdx := map[string][]int{}
 	for i, ev := range in.Events {
+		if strings.HasPrefix(ev.Enc, "otlp") {
+			if ev.Peer {
+				return Case{}, fmt.Errorf("event %d: OTLP is accepted on the incoming listener only", i)
+			}
+			otlpIdx[ev.Enc] = append(otlpIdx[ev.Enc], i)
+			continue
+		}
 		isJSON := strings.HasPrefix(ev.Enc, "json")
 		seen := map[string]bool{"i": true}
 		var kvs []MKV
@@ -348,6 +396,27 @@ func c21Run(raw json.RawMessage) (Case, error) {
 		}
 		statuses = append(statuses, fmt.Sprintf("%s(peer=%v):%d %s", g.enc, g.peer, resp.Status, strings.TrimSpace(string(resp.Body))))
 	}
+	for _, enc := range []string{"otlp-log", "otlp-trace"} {
+		idx := otlpIdx[enc]
+		if len(idx) == 0 {
+			continue
+		}
+		var evs []c21Event
+		for _, i := range idx {
+			evs = append(evs, in.Events[i])
+		}
+		body, err := c21OTLPBody(enc, idx, evs)
+		if err != nil {
+			return Case{}, err
+		}
+		path := map[string]string{"otlp-trace": "/v1/traces", "otlp-log": "/v1/logs"}[enc]
+		oh := map[string]string{"X-Honeycomb-Team": rtLegacyKey, "X-Honeycomb-Dataset": "ds"}
+		resp, err := n.post(false, path, "application/protobuf", oh, body)
+		if err != nil {
+			return Case{}, err
+		}
+		statuses = append(statuses, fmt.Sprintf("%s:%d", enc, resp.Status))
+	}
 	n.flush()
 	apiEvs, errs := n.api.take()
 	peerEvs, errs2 := n.peerSink.take()
@@ -391,7 +460,11 @@ func c21Run(raw json.RawMessage) (Case, error) {
 		isJSON := strings.HasPrefix(ev.Enc, "json")
 		var fs []string
 		nIDs := 0
-		for _, f := range ev.Fields {
+		evFields := ev.Fields
+		if strings.HasPrefix(ev.Enc, "otlp") {
+			evFields = c21OTLPFields(ev)
+		}
+		for _, f := range evFields {
 			fs = append(fs, cq.Pair(c21Str(f.Name), c21Coq(f.Val, isJSON)))
 			if f.Val.K == "str" && f.Val.S != "" {
 				for _, t := range in.TraceNames {
@@ -414,9 +487,9 @@ func c21Run(raw json.RawMessage) (Case, error) {
 			o = "ODup"
 		}
 		// wire order is an order only for the batch encodings; the /1/events paths iterate a Go map
-		path := map[string]uint64{"msgp-batch": 0, "json-batch": 0, "json-event": 1, "msgp-event": 2}[ev.Enc]
+		path := map[string]uint64{"msgp-batch": 0, "json-batch": 0, "json-event": 1, "msgp-event": 2, "otlp-trace": 0, "otlp-log": 1}[ev.Enc]
 		evs = append(evs, cq.App("Build_cev", cq.N(path), cq.List(fs), o))
-		hs = append(hs, fmt.Sprintf("%d %s peer=%v %v -> %s", i, ev.Enc, ev.Peer, ev.Fields, strings.Join(human[i], " + ")))
+		hs = append(hs, fmt.Sprintf("%d %s peer=%v %v -> %s", i, ev.Enc, ev.Peer, evFields, strings.Join(human[i], " + ")))
 		tags = append(tags, "enc:"+ev.Enc, fmt.Sprintf("id-fields:%d", nIDs))
 		if ev.Peer {
 			tags = append(tags, "listener:peer")
